@@ -29,16 +29,24 @@ def rb(rng, n):
     return bytes(rng.randrange(256) for _ in range(n))
 
 
+def rpay(rng, n):
+    """payload bytes; one in four starts with the PES start code prefix (PESHeader branch)"""
+    b = rb(rng, n)
+    if n >= 3 and rng.random() < 0.25:
+        b = b"\x00\x00\x01" + b[3:]
+    return b
+
+
 def logical(rng, afc=None, want_len=None):
     """a logical packet: dict(hdr=[sync tei pusi tp pid tsc afc cc], af=None | ('empty',) | (flags3, pcr, opcr, splice, tpd, ext, stuffing), payload)"""
     afc = afc if afc is not None else rng.choice([1, 3, 3, 3, 2])
     hdr = [0x47, rng.randrange(2), rng.randrange(2), rng.randrange(2), rng.choice([0, 0x1fff, 0x100, rng.randrange(8192)]),
            rng.choice([0, 0, 2, 3]), afc, rng.randrange(16)]
     if afc == 1:
-        return dict(hdr=hdr, af=None, payload=rb(rng, 184))
+        return dict(hdr=hdr, af=None, payload=rpay(rng, 184))
     total = 183 if afc == 2 else (want_len if want_len is not None else rng.choice([0, 1, 2, 7, 182, 181, rng.randrange(183), rng.randrange(183)]))
     if total == 0:
-        return dict(hdr=hdr, af=("empty",), payload=rb(rng, 183))
+        return dict(hdr=hdr, af=("empty",), payload=rpay(rng, 183))
     # choose optional fields that fit into total-1 bytes
     room = total - 1
     fl = 0; pcr = opcr = splice = tpd = ext = None
@@ -60,7 +68,7 @@ def logical(rng, afc=None, want_len=None):
             else: ext = rb(rng, n)
     top = rng.randrange(8)                      # discontinuity, random access, ES priority
     stuffing = bytes([0xff]) * room if rng.random() < 0.7 else rb(rng, room)
-    return dict(hdr=hdr, af=(top, pcr, opcr, splice, tpd, ext, stuffing), payload=rb(rng, 188 - 5 - total))
+    return dict(hdr=hdr, af=(top, pcr, opcr, splice, tpd, ext, stuffing), payload=rpay(rng, 188 - 5 - total))
 
 
 def ser_line(l):
